@@ -243,7 +243,10 @@ func explore(c *fw.Ctx, fx *fixture, name string, p *starlark.Program, n, bound 
 			st.Schedules++
 			st.States++
 			st.Evals++
-			st.Nontrivial++
+			if len(prefix) > 0 {
+				// at least one deviation from the default (run-to-completion) schedule
+				st.Nontrivial++
+			}
 			st.Transitions += int64(len(x.points))
 			for i, tr := range x.transcripts {
 				if !tr.equal(solo) && nviol < 5 {
@@ -581,7 +584,7 @@ func init() {
 		Level: "model_checking",
 		Rule: "(1) every (shared frozen value, operation) pair - generic operations, every advertised method x 8 argument tuples, rejected mutations, re-Freeze - leaves a generic deep snapshot of all shared state unchanged; " +
 			"(2) stateless exploration of all schedules of N threads running one shared *Program on the shared values, one scheduling point per interpreter instruction (also inside built-in callbacks), up to a preemption bound, each thread's transcript compared with its solo transcript, replay divergence is a hard error; " +
-			"(3) free-running -race pass over operation pairs and concurrent Init; states/transitions count schedules and scheduled instructions; non-trivial = snapshot cases + schedules",
+			"(3) free-running -race pass over operation pairs and concurrent Init; states/transitions count schedules and scheduled instructions; non-trivial = snapshot cases + schedules that deviate from the default run-to-completion schedule by at least one preemption",
 		Run: run, Worker: worker, Replay: replay,
 		Assumptions: []string{
 			"preemption inside one bytecode instruction is not a scheduling point of sub-check 2; it is covered by the snapshot invariant (no write on any read path) and by the race detector pass",
